@@ -45,6 +45,8 @@ Tok(k) ==
     [] k = "dict"     -> Dict([q \in {KeyK} |-> PInt(<<49>>)])
     [] k = "emptydict" -> Dict(EmptyMap)
     [] k = "ref"      -> Ref(<<51>>, <<48>>)
+    \* the largest reference the library documents: object 2^24-1, generation 65535
+    [] k = "refmax"   -> Ref(<<49, 54, 55, 55, 55, 50, 49, 53>>, <<54, 53, 53, 51, 53>>)
     [] k = "nilarr"   -> NilArr
     [] k = "nildict"  -> NilDict
 
